@@ -61,12 +61,16 @@ def main():
     entry_ok = []
     for (shape, syn), job, ans in ext:
         o = ans.get("ok")
+        if "timeout" in ans or "crash" in ans or "panic" in ans:
+            ck.inconclusive("rule extraction failed on %s: %s" % (rules.sql_of(shape), json.dumps(ans)[:200]))   # never skipped silently
+            continue
         if not isinstance(o, dict) or "Hard" not in o:
             continue
         n_prog += 1
         for strat in ("Soft", "Hard"):
             S = o.get(strat, {})
             if "set" not in S:
+                ck.inconclusive("rule extraction panicked for %s/%s: %s" % (rules.sql_of(shape), strat, json.dumps(S)[:200]))
                 continue
             nodes, root = rules.flatten(S["set"])
             for n in nodes:
